@@ -7,6 +7,8 @@ package cose
 // model is replayed against the compiled real code (VERIF_REPLAY=<file>).
 
 import (
+	"runtime"
+	"sync"
 	"bytes"
 	"crypto"
 	"crypto/ecdsa"
@@ -280,11 +282,27 @@ func vHash(h int, data []byte) []byte {
 // unconstrained field elements, a superset).
 func vECKeyValid(name string, c elliptic.Curve) *ecdsa.PrivateKey {
 	k := vECKey(name, c)
-	d := new(big.Int).Mod(k.D, new(big.Int).Sub(c.Params().N, big.NewInt(1)))
+	nm1 := new(big.Int).Sub(c.Params().N, big.NewInt(1))
+	d := new(big.Int).Mod(k.D, nm1)
 	d.Add(d, big.NewInt(1))
-	k.D = d
-	k.X, k.Y = c.ScalarBaseMult(d.Bytes())
-	return k
+	// The public point is computed from d, so the solver's (X, Y) cannot be imposed; what a
+	// counterexample may depend on is their byte lengths (leading zero bytes): search nearby
+	// scalars until the lengths match the model's (1 in 256 per coordinate; bounded).
+	wantX, wantY := len(k.X.Bytes()), len(k.Y.Bytes())
+	full := (c.Params().BitSize + 7) / 8
+	search := wantX >= full-1 && wantY >= full-1 && (wantX < full || wantY < full)
+	start := time.Now()
+	for i := 0; ; i++ {
+		x, y := c.ScalarBaseMult(d.Bytes())
+		if !search || (len(x.Bytes()) == wantX && len(y.Bytes()) == wantY) || i > 400000 || time.Since(start) > 40*time.Second {
+			k.D, k.X, k.Y = d, x, y
+			return k
+		}
+		d = new(big.Int).Add(d, big.NewInt(1))
+		if d.Cmp(nm1) > 0 {
+			d = big.NewInt(1)
+		}
+	}
 }
 
 // vEcdsaSign: the signing primitive (arbitrary (r,s) in [1,N-1]^2 that the
@@ -373,6 +391,36 @@ func vRSAKeyValid(name string) *rsa.PrivateKey {
 
 // vRand: the entropy source handed to signers.
 func vRand() io.Reader { return cryptorand.Reader }
+
+// vYieldRand: entropy source that lets other goroutines run first (a scheduling point inside the primitive)
+type vYieldReader struct{}
+
+func (vYieldReader) Read(p []byte) (int, error) {
+	runtime.Gosched()
+	return cryptorand.Read(p)
+}
+func vYieldRand() io.Reader { return vYieldReader{} }
+
+// vInterleaved runs the bodies as goroutines on one P, so that every Gosched in vYieldRand
+// switches to the other body (natively); the solver side runs them in sequence.
+func vInterleaved(fs ...func()) {
+	prev := runtime.GOMAXPROCS(1)
+	defer runtime.GOMAXPROCS(prev)
+	var wg sync.WaitGroup
+	for _, f := range fs {
+		wg.Add(1)
+		go func(f func()) {
+			defer wg.Done()
+			defer func() {
+				if r := recover(); r != nil {
+					vFailures = append(vFailures, fmt.Sprintf("panic in interleaved body: %v", r))
+				}
+			}()
+			f()
+		}(f)
+	}
+	wg.Wait()
+}
 
 // non-short-circuit boolean connectives (keep symbolic conditions in one path)
 func vOr(a, b bool) bool      { return a || b }
